@@ -111,6 +111,7 @@ HANDLER_RULES = [
     Rule("R5", "$x . parse :: < isize > ( ) . context ( $m ) ?", "parse_isize ( $x ) ?", why="str::parse::<isize> as assumed contract; context text dropped"),
     Rule("R5", "$x . parse :: < usize > ( ) . context ( $m ) ?", "parse_usize ( $x ) ?", why="str::parse::<usize> as assumed contract; context text dropped"),
     Rule("R6", "$p . move_out_of_heap_primitive_borrow ( ) . context ( $m ) ? . as_ref ( )", "move_out_borrow ( & $p ) ?", why="heap-pointer view abstract: identity on non-pointers"),
+    Rule("R6", "$p . move_out_of_heap_primitive_borrow ( ) ? . as_ref ( )", "move_out_borrow ( & $p ) ?", why="heap-pointer view abstract: identity on non-pointers"),
     Rule("R1", "primitive . clone ( )", "clone_prim ( & primitive )", why="Primitive::clone"),
     Rule("R6", "$p . move_out_of_heap_primitive ( ) ?", "move_out ( $p ) ?", why="heap-pointer view abstract: identity on non-pointers"),
     Rule("R1", "InstructionExitState :: $v", "Exit :: $v", why="enum renamed in the model"),
